@@ -97,7 +97,23 @@ struct FV // void-result twin
   }
 };
 
-struct Trk : public sigc::trackable
+// methods declared in a NON-trackable base: &Trk::brun has type int (RunBase::*)(int, const F&), while the
+// bound object is a Trk — mem_fun must decide tracking from the object's class, not the method's
+struct RunBase
+{
+  int brun(int a, const F& f)
+  {
+    int fid = f.fid;
+    return invoke_leaf(fid, a);
+  }
+  void brunv(int a, const F& f)
+  {
+    int fid = f.fid;
+    invoke_leaf(fid, a);
+  }
+};
+
+struct Trk : public RunBase, public sigc::trackable
 {
   int run(int a, const F& f)
   {
@@ -356,6 +372,7 @@ struct Interp
   int maxdepth = 6;
   long steps = 0;      // operations executed so far
   long maxsteps = 1500; // emit/callS refuse (`budget`) beyond this many operations
+  bool owners = false;  // program mode `owners`: owning functors available, empty slots cannot be connected
   long mark = 0;
   std::string out;
   bool yield = false;
@@ -417,10 +434,21 @@ struct Interp
       Trk* t = get(T, idx(p[2]));
       if (!t)
         return 1;
+      // odd functor ids bind a method inherited from the non-trackable base
       if constexpr (isV)
-        dst = SlotV(sigc::bind(sigc::mem_fun(*t, &Trk::runv), F(fid)));
+      {
+        if (fid % 2)
+          dst = SlotV(sigc::bind(sigc::mem_fun(*t, &Trk::brunv), F(fid)));
+        else
+          dst = SlotV(sigc::bind(sigc::mem_fun(*t, &Trk::runv), F(fid)));
+      }
       else
-        dst = SlotI(sigc::bind(sigc::mem_fun(*t, &Trk::run), F(fid)));
+      {
+        if (fid % 2)
+          dst = SlotI(sigc::bind(sigc::mem_fun(*t, &Trk::brun), F(fid)));
+        else
+          dst = SlotI(sigc::bind(sigc::mem_fun(*t, &Trk::run), F(fid)));
+      }
       return 0;
     }
     if (k == "trk" && (p.size() == 3 || p.size() == 4))
@@ -639,6 +667,20 @@ struct Interp
     const std::string& op = w[0];
     auto N = [&](std::size_t n) { return w.size() == n + 1; };
 
+    // ---------------- the mode rule of the language (docs/LANGUAGE.md)
+    {
+      auto is_owner_spec = [](const std::string& sp) { return sp.rfind("ownT:", 0) == 0 || sp.rfind("ownK:", 0) == 0; };
+      if ((op == "conn" || op == "connf" || op == "connmv" || op == "connfmv") && N(3) && owners)
+      {
+        SlotObj* sl = get(S, idx(w[3]));
+        if (sl && sl->base()->empty())
+          return "emptyslot";
+      }
+      if (!owners && ((op == "mkS" && N(3) && is_owner_spec(w[3])) || (op == "setS" && N(2) && is_owner_spec(w[2])) ||
+                      ((op == "connfn" || op == "connffn") && N(3) && is_owner_spec(w[3]))))
+        return "noowner";
+    }
+
     // ---------------- trackables
     if (op == "newT" && N(1))
     {
@@ -844,7 +886,8 @@ struct Interp
       SlotObj* s = get(S, idx(w[1]));
       if (!s)
         return "dead";
-      bool old = (w[2] == "1") ? s->base()->block(true) : s->base()->unblock();
+      bool old = (w[2] == "1") ? s->base()->block(true)
+                               : (idx(w[1]) % 2 == 0 ? s->base()->unblock() : s->base()->block(false));
       return old ? "1" : "0";
     }
     if (op == "blockedS?" && N(1))
@@ -1038,14 +1081,18 @@ struct Interp
         g_strategy = strat;
         std::string res = with_sig(*g, [&](auto& sig) -> std::string {
           using Sig = std::remove_reference_t<decltype(sig)>;
+          // the two public spellings of an emission are exercised alternately: emit(a) and operator()(a)
           if constexpr (std::is_same<typename Sig::slot_type, SlotV>::value)
           {
-            sig.emit(a);
+            if (a % 2 == 0)
+              sig.emit(a);
+            else
+              sig(a);
             return "r=void";
           }
           else
           {
-            int r = sig.emit(a);
+            int r = (a % 2 == 0) ? sig.emit(a) : sig(a);
             return "r=" + std::to_string(r);
           }
         });
@@ -1108,9 +1155,12 @@ struct Interp
       if (!g)
         return "dead";
       bool b = (w[2] == "1");
-      with_sig(*g, [b](auto& s) {
+      bool viaBlock = idx(w[1]) % 2 == 1;
+      with_sig(*g, [b, viaBlock](auto& s) {
         if (b)
-          s.block(true);
+          s.block(); // default argument
+        else if (viaBlock)
+          s.block(false);
         else
           s.unblock();
         return 0;
@@ -1191,7 +1241,7 @@ struct Interp
       auto c = get(C, idx(w[1]));
       if (!c)
         return "dead";
-      bool old = (w[2] == "1") ? c->block(true) : c->unblock();
+      bool old = (w[2] == "1") ? c->block(true) : (idx(w[1]) % 2 == 0 ? c->unblock() : c->block(false));
       return old ? "1" : "0";
     }
 
@@ -1300,7 +1350,7 @@ struct Interp
       auto k = get(K, idx(w[1]));
       if (!k)
         return "dead";
-      bool old = (w[2] == "1") ? k->block(true) : k->unblock();
+      bool old = (w[2] == "1") ? k->block(true) : (idx(w[1]) % 2 == 0 ? k->unblock() : k->block(false));
       return old ? "1" : "0";
     }
 
@@ -1436,6 +1486,11 @@ struct Interp
       if (l.rfind("maxsteps ", 0) == 0)
       {
         maxsteps = std::atol(l.c_str() + 9);
+        continue;
+      }
+      if (l == "owners")
+      {
+        owners = true;
         continue;
       }
       if (cur >= 0)
